@@ -86,7 +86,8 @@ impl Opts {
         let dedup = match self.dedup {
             0 => DedupPolicy::Off,
             1 => DedupPolicy::Exact,
-            _ => DedupPolicy::Epsilon { tolerance: 1e-9 },
+            2 => DedupPolicy::Epsilon { tolerance: 1e-9 },
+            _ => DedupPolicy::Epsilon { tolerance: 1e-12 },   // finer than the 1e-10 insertion tolerance
         };
         let simplex = match self.simplex {
             0 => InitialSimplexStrategy::First,
